@@ -27,6 +27,7 @@ fixed("F16", "C12", "3ce69e4", "history init(symbolic) -> bind(all symbols) -> r
 fixed("F17", "C17", "96e00d2", "subdistribution of a distribution with outcome values >= 10 raised RuntimeError: projected keys were joined without a separator and re-read digit by digit")
 fixed("F18", "C17", "c5a3b0d", "save/load of single-subsystem outcomes >= 10: {(12,): .5, (3,): .5} was re-read as keys of unequal length (RuntimeError); formerly recorded as open finding K5")
 fixed("F20", "C13", "31b74cc", "expand_sample_sizes([c], [2**53 + 1], 2**52) returned copies summing to 2**52 + 1: the number of copies was computed with float division (ceil(n / max)), inexact above 2**53")
+fixed("F21", "C05", "a430749", "Python complex gate parameters: about 2% of doubles reloaded one ulp off (text parsed at sympy precision, as F14), and a complex with zero imaginary part (-3.5+0j) made circuit_from_dict raise ValueError in the float short cut introduced by the F14 repair")
 open_("K1", "C18", "probe_K1", "controlled U3 (any number of controls) with (phi+lambda) mod 4pi != 0",
       "decomposed circuit == original * (phase exp(-i(phi+lambda)/2) on the all-controls-1 block), up to global phase",
       {"gate": "U3(0.3,0.5,0.9).controlled(1)(0,1)"},
